@@ -236,7 +236,7 @@ const (
 // Init builds the client's first method message carrying one value: mpint e for DH
 // (number 30) or GEX (number 32), string Q_C for the others (number 30).
 func InitMpint(num byte, e *big.Int) []byte { return append([]byte{num}, Mpint(e)...) }
-func InitString(q []byte) []byte           { return append([]byte{MsgKexECDHInit}, Str(q)...) }
+func InitString(q []byte) []byte            { return append([]byte{MsgKexECDHInit}, Str(q)...) }
 
 // GexRequest builds SSH_MSG_KEX_DH_GEX_REQUEST.
 func GexRequest(min, n, max uint32) []byte {
